@@ -5520,18 +5520,9 @@ class Arc(Curve):
         #     theta = -theta
         # theta = theta % 360
 
-        n = sqrt((ux * ux + uy * uy) * (vx * vx + vy * vy))
-        p = ux * vx + uy * vy
-        d = p / n
-        # In certain cases the above calculation can through inaccuracies
-        # become just slightly out of range, f ex -1.0000000000000002.
-        if d > 1.0:
-            d = 1.0
-        elif d < -1.0:
-            d = -1.0
-        delta = degrees(acos(d))
-        if (ux * vy - uy * vx) < 0:
-            delta = -delta
+        # The angle between the two radius vectors, from both the dot and the cross product: the arc cosine of the
+        # normalized dot product alone loses a very shallow arc (a huge radius over a short chord) to rounding.
+        delta = degrees(atan2(ux * vy - uy * vx, ux * vx + uy * vy))
         delta = delta % 360
         if not sweep_flag:
             delta -= 360
